@@ -3,6 +3,7 @@ package props
 import (
 	"encoding/json"
 	"encoding/xml"
+	"net/http/httptest"
 	"os"
 	"sort"
 	"strconv"
@@ -28,7 +29,8 @@ func init() { registerPart("C05", "TestC05", jsonReplay(checkC05)) }
 const (
 	mimeVA = "application/vnd.v.a+json"
 	mimeVB = "application/vnd.v.b+xml"
-	mimeVC = "application/json-seq" // contains the key application/json as a substring
+	mimeVC = "application/json-seq"               // contains the key application/json as a substring
+	mimeVU = "application/vnd.Acme.Thing-v2+json" // a registration key with upper-case letters
 )
 
 var (
@@ -43,7 +45,8 @@ func setupRegistry() []string {
 		if cfg == "b" || cfg == "c" {
 			restful.RegisterEntityAccessor(mimeVA, restful.NewEntityAccessorJSON(mimeVA))
 			restful.RegisterEntityAccessor(mimeVB, restful.NewEntityAccessorXML(mimeVB))
-			registered = append(registered, mimeVA, mimeVB)
+			restful.RegisterEntityAccessor(mimeVU, restful.NewEntityAccessorJSON(mimeVU))
+			registered = append(registered, mimeVA, mimeVB, mimeVU)
 		}
 		if cfg == "c" {
 			restful.RegisterEntityAccessor(mimeVC, restful.NewEntityAccessorXML(mimeVC))
@@ -72,6 +75,9 @@ type C05Case struct {
 	Pretty   bool       `json:"pretty"`
 	Accept   []AccRange `json:"accept"` // empty = no Accept header
 	Via      string     `json:"via"`
+	Call     string     `json:"call,omitempty"` // WriteEntity (default), WriteHeaderAndEntity, WriteServiceError
+	// Split > 0: the ranges are sent as two Accept header lines, the second starting at range Split.
+	Split int `json:"split,omitempty"`
 }
 
 func (r AccRange) qval() float64 {
@@ -184,6 +190,8 @@ func genC05(t *rapid.T) C05Case {
 	}
 	c.Pretty = rapid.Bool().Draw(t, "pretty")
 	c.Via = rapid.SampledFrom([]string{harness.ViaDispatch, harness.ViaServe}).Draw(t, "via")
+	c.Call = rapid.SampledFrom([]string{"", "", "WriteHeaderAndEntity", "WriteServiceError"}).Draw(t, "call")
+	splitDraw := rapid.IntRange(0, 5).Draw(t, "split")
 	nr := rapid.SampledFrom([]int{0, 1, 1, 2, 2, 3, 3, 4, 5, 6, 9, 13, 14, 16, 20, 30}).Draw(t, "nranges")
 	qs := []string{"", "", "1", "0.9", "0.8", "0.8", "0.5", "0.1", "0.001", "1.0", "0.50"}
 	for i := 0; i < nr; i++ {
@@ -209,6 +217,9 @@ func genC05(t *rapid.T) C05Case {
 			r.WS = rapid.SliceOfN(rapid.IntRange(0, 2), 1, 12).Draw(t, "ws")
 		}
 		c.Accept = append(c.Accept, r)
+	}
+	if splitDraw == 0 && len(c.Accept) >= 2 {
+		c.Split = rapid.IntRange(1, len(c.Accept)-1).Draw(t, "splitat")
 	}
 	return c
 }
@@ -255,10 +266,24 @@ func checkC05(c C05Case) (vs []*Violation) {
 	ct := restful.NewContainer()
 	ws := new(restful.WebService)
 	ws.Path("/")
+	wantStatus := 200
 	ws.Route(ws.GET("/x").Produces(c.Produces...).To(func(req *restful.Request, resp *restful.Response) {
-		resp.WriteEntity(value)
+		switch c.Call {
+		case "WriteHeaderAndEntity":
+			resp.WriteHeaderAndEntity(201, value)
+		case "WriteServiceError":
+			resp.WriteServiceError(409, restful.ServiceError{Code: 409, Message: "conflict"})
+		default:
+			resp.WriteEntity(value)
+		}
 	}))
 	ct.Add(ws)
+	switch c.Call {
+	case "WriteHeaderAndEntity":
+		wantStatus = 201
+	case "WriteServiceError":
+		wantStatus = 409
+	}
 
 	labels := append(labels0, "registry_"+c.Registry, "produces_"+strconv.Itoa(len(c.Produces)), "ranges_"+strconv.Itoa(min(len(c.Accept), 13)))
 	want, admitted, decided := expectedType(c.Produces, c.Accept, isReg)
@@ -270,6 +295,11 @@ func checkC05(c C05Case) (vs []*Violation) {
 	if !decided {
 		// the header ranks only produced types that have no writer: outside the stated domain
 		st.Case(c, false, append(labels, "only_unregistered_types_ranked")...)
+		return nil
+	}
+	if c.Call == "WriteServiceError" && isXMLMime(want) {
+		// a ServiceError carries an http.Header, which encoding/xml cannot marshal: outside the codecs' domain
+		st.Case(c, false, append(labels, "service_error_as_xml_skipped")...)
 		return nil
 	}
 	hdrs := []string{renderAccept(c.Accept, true)}
@@ -299,8 +329,8 @@ func checkC05(c C05Case) (vs []*Violation) {
 				vs = append(vs, viol("", "%s: the router admitted the request but the entity writer answered 406", where))
 				break
 			}
-			if o.Status != 200 {
-				vs = append(vs, viol("", "%s: status %d", where, o.Status))
+			if o.Status != wantStatus {
+				vs = append(vs, viol("", "%s: status %d, the handler wrote %d", where, o.Status, wantStatus))
 				break
 			}
 			inProduces := false
@@ -322,6 +352,18 @@ func checkC05(c C05Case) (vs []*Violation) {
 				break
 			}
 			// the body decodes with the codec the Content-Type names
+			if c.Call == "WriteServiceError" {
+				// a ServiceError carries an http.Header, which the XML codec cannot marshal: only the
+				// negotiated type is judged, and a JSON body must decode
+				if !isXMLMime(got) {
+					var se restful.ServiceError
+					if err := json.Unmarshal(o.Body, &se); err != nil || se.Code != 409 {
+						vs = append(vs, viol("", "%s: body labelled %q does not decode to the service error (err=%v)", where, got, err))
+						break
+					}
+				}
+				continue
+			}
 			var back c05Entity
 			var err error
 			if isXMLMime(got) {
@@ -333,6 +375,25 @@ func checkC05(c C05Case) (vs []*Violation) {
 				vs = append(vs, viol("", "%s: body labelled %q does not decode to the written value (err=%v, got %+v)", where, got, err, back))
 				break
 			}
+		}
+	}
+	if c.Split > 0 && c.Split < len(c.Accept) && len(vs) == 0 && c.Call != "WriteServiceError" {
+		// the ranges sent as two Accept header lines. Whether the second line counts is not
+		// pinned down by the statement; router and entity writer must read the same header
+		// though: the answer is the one for the first line alone or the one for the joined list.
+		l1, l2 := renderAccept(c.Accept[:c.Split], true), renderAccept(c.Accept[c.Split:], true)
+		req := model.ReqSpec{Method: "GET", Path: "/x"}
+		hr := harness.NewHTTPRequest(req, "split")
+		hr.Header["Accept"] = []string{l1, l2}
+		w := httptest.NewRecorder()
+		ct.Dispatch(w, hr)
+		got := strings.Join(w.Header()["Content-Type"], "|")
+		wantA, admittedA, decidedA := expectedType(c.Produces, c.Accept[:c.Split], isReg)
+		okA := (!admittedA && w.Code == 406) || (admittedA && decidedA && w.Code == wantStatus && got == wantA) || (admittedA && !decidedA)
+		okB := w.Code == wantStatus && got == want
+		labels = append(labels, "two_accept_header_lines")
+		if !okA && !okB {
+			vs = append(vs, viol("", "Produces=%v, two Accept lines %q and %q: status %d Content-Type %q is neither the answer for the first line alone (admitted=%v type=%q) nor for the joined list (%q)", c.Produces, l1, l2, w.Code, got, admittedA, wantA, want))
 		}
 	}
 	if len(seen) > 1 && len(vs) == 0 {
